@@ -431,7 +431,9 @@ M_complLoop ==
           /\ tobj' = IF rest = <<>> THEN Reap(tobj, tasks, m.task) ELSE tobj
           /\ m' = after /\ UNCHANGED <<echo, cseen>>
      ELSE IF id \notin mboxes
-     THEN Raise("KeyError") /\ UNCHANGED <<tobj, mboxes, box, echo, cseen, h>>
+     THEN \* self.cancel() -> KeyError.  _process_task_completion runs inside `except StopIteration`, so the sibling
+          \* `except Exception` does not apply: the error reaches Worker._loop
+          m' = [m EXCEPT !.pc = "die", !.exc = "KeyError"] /\ UNCHANGED <<tobj, mboxes, box, echo, cseen, h>>
      ELSE LET n == box[id].expected IN
           /\ mboxes' = mboxes \ {id} /\ box' = Del(box, id)
           /\ echo' = echo \cup CancelAddrs(id, n) /\ cseen' = cseen \cup CancelAddrs(id, n)
@@ -441,6 +443,15 @@ M_complLoop ==
           /\ m' = after
   /\ UNCHANGED <<tasks, delayed, readyq, cancelled, ctr, receipt, rrHolder, mbHolder, i, hr, pool, remote, rootc, clientRes, alive>>
   /\ Act("M_complLoop", "main")
+
+\* `except Exception:` in Worker._loop: `self._running = False`, ERROR(traceback) goes up, the loop ends and with it the worker
+\* process (its boss then shuts the whole runtime down)
+M_die ==
+  /\ alive /\ m.pc = "die"
+  /\ h' = [h EXCEPT !.errs = @ \cup {"loop:" \o m.exc}, !.sent = Sent("ERROR", 1)]
+  /\ alive' = FALSE
+  /\ UNCHANGED <<shared, m, i, hr, pool, remote, echo, cseen, rootc, clientRes>>
+  /\ Act("M_die", "main")
 
 \* ================================================================== _handle_result (either thread)
 PC(th) == IF th = "main" THEN m.pc ELSE i.pc
@@ -697,7 +708,7 @@ Halt == ~alive /\ ~Record /\ UNCHANGED vars
 MainNext == \/ M_top \/ M_popDelayed \/ M_addDelayed \/ M_putDelayed \/ M_lockRR \/ M_getNowait \/ M_sendWaiting
             \/ M_blockGet \/ M_lookup \/ M_checkCancelled \/ M_checkCrumbs \/ M_gdrLock \/ M_gdrBody \/ M_exc \/ M_resume
             \/ M_submit \/ M_map \/ M_cancel \/ M_next \/ M_stepCheck \/ M_paLock \/ M_paCheck \/ M_paReady \/ M_paAct
-            \/ M_complCheck \/ M_complPop \/ M_complLoop
+            \/ M_complCheck \/ M_complPop \/ M_complLoop \/ M_die
             \/ HR_lock("main") \/ HR_deposit("main") \/ HR_check("main") \/ HR_wake("main") \/ HR_clear("main")
 IncNext == \/ \E g \in pool : \E S \in SUBSET (1..Len(g.ts)) : I_recvTasks(g, S)
            \/ \E d \in remote : I_recvResult(d)
